@@ -4,6 +4,7 @@
    Composition of C09 (Model/Resolvers.v) and C07 (Model/Imports.v, corresponded). *)
 From Coq Require Import List String ZArith NArith Bool.
 Import ListNotations.
+From DV Require Import Model.Decision Gen.GoastImportsSrc Proofs.GoastStepProofs.
 From DV Require Import Model.Tree Model.Resolvers Model.Imports Proofs.ResolverProofs Proofs.ImportsProofs Proofs.ImportsExact
   Model.Decision Model.DecisionInterp Gen.DecisionSrc Proofs.DecisionProofs.
 Local Open Scope string_scope.
@@ -85,9 +86,40 @@ Example C10_nonvacuous :
   end.
 Proof. vm_compute. repeat split. Qed.
 
+
+(* goast.DecoratorResolver.imports is no longer pinned by hash as a whole: the case of its traversal for
+   one import spec is translated on every run (a decision program over the spec: skip "C" and blank
+   imports, refuse dot-imports, resolve the name of an unnamed import, refuse a second package under one
+   name, else add) and proved to be one step of the model's goast_scan, for every spec, name resolver and
+   table built so far (goast_scan_by_steps: the model's scan is the iteration of that step); what surrounds
+   the case -- the lock, the per-file cache, the traversal that stops at the first declaration that is no
+   import -- is pinned with the case body struck out *)
+Theorem C10_goast_import_case_source_computes_the_model :
+  forall name_of s acc,
+    match run (step_val name_of s acc) goast_spec_step_src with
+    | OReturn (DVal r) => step_sym name_of s acc r = Some (scan_step name_of s acc)
+    | _ => False
+    end.
+Proof. exact goast_step_source_is_model. Qed.
+
+Theorem C10_goast_scan_iterates_the_step :
+  forall name_of s r acc,
+  Model.Resolvers.goast_scan name_of (s :: r) acc
+  = match scan_step name_of s acc with
+    | Model.Resolvers.GIError w => Model.Resolvers.GIError w
+    | Model.Resolvers.GIOk acc' => Model.Resolvers.goast_scan name_of r acc'
+    end.
+Proof. exact goast_scan_by_steps. Qed.
+
+Theorem C10_goast_imports_source_is_within_the_vocabulary : step_vocabulary_ok && goast_imports_frame_ok = true.
+Proof. vm_compute. reflexivity. Qed.
+
 Print Assumptions C10_reference_travels_as_import_path.
 Print Assumptions C10_resolver_sources_compute_the_models.
 Print Assumptions C10_moved_reference_is_bound_in_the_target.
 Print Assumptions C10_referenced_path_is_imported_in_target.
 Print Assumptions C10_import_alias_binds_the_qualifier.
 Print Assumptions C10_qualifiers_are_unambiguous.
+Print Assumptions C10_goast_import_case_source_computes_the_model.
+Print Assumptions C10_goast_scan_iterates_the_step.
+Print Assumptions C10_goast_imports_source_is_within_the_vocabulary.
